@@ -136,7 +136,7 @@ func runC14(c *Check) {
 				c.Report(GuardedBy(isDup, r, notFound) && Dominates(isDup, up, r), P+".O1", "ANSWER-NEW-ONLY-AFTER-INSERT", isDup, r.Pos(), k, "'new' is answered only on the not-found edge and after the key was inserted")
 			}
 		}
-		c.Report(IsNilConst(r.Results[1]), P+".O1", "ANSWER-NO-ERROR", isDup, r.Pos(), k, "the in-memory repository never fails")
+		c.Report(RetNil(r, 1), P+".O1", "ANSWER-NO-ERROR", isDup, r.Pos(), k, "the in-memory repository never fails")
 	}
 
 	// O3 expiry
@@ -256,7 +256,7 @@ func c14Dedup(c *Check, P string) {
 				re := ReachEdge(e, nil)
 				for _, r := range Returns(I) {
 					if re[r] && GuardedBy(I, r, eOK) {
-						c.Report(IsNilConst(r.Results[0]) && IsNilConst(r.Results[1]), P+".O2", "DUPLICATE-IS-SUCCESS", I, r.Pos(), "middleware duplicate edge", "a duplicate is dropped as success: (nil, nil)")
+						c.Report(RetNil(r, 0) && RetNil(r, 1), P+".O2", "DUPLICATE-IS-SUCCESS", I, r.Pos(), "middleware duplicate edge", "a duplicate is dropped as success: (nil, nil)")
 					}
 				}
 				c.Report(!reachesAny(re, m.HCalls), P+".O2", "DUPLICATE-NOT-HANDLED", I, I.Pos(), "middleware duplicate edge", "the handler is unreachable on the duplicate edge")
